@@ -1,8 +1,24 @@
 // appended to marwood/src/vm/vcell.rs as `#[cfg(kani)] mod verif_kani`
 use super::*;
 
-/// as_ptr / as_argc / as_car / as_cdr / as_bp on every payload value of the payload-free and usize-carrying
-/// variants: Ok(payload) exactly on the matching variant, Err otherwise (loop-free, full usize domain)
+fn ok_is(r: Result<usize, Error>, want: usize) -> bool {
+    let b = matches!(&r, Ok(x) if *x == want);
+    std::mem::forget(r);
+    b
+}
+fn is_err<T>(r: Result<T, Error>) -> bool {
+    let b = r.is_err();
+    std::mem::forget(r);
+    b
+}
+fn ok_ptr(r: Result<VCell, Error>, want: usize) -> bool {
+    let b = matches!(&r, Ok(VCell::Ptr(x)) if *x == want);
+    std::mem::forget(r);
+    b
+}
+
+/// as_ptr / as_argc / as_car / as_cdr / as_bp / is_pair: Ok(payload) exactly on the matching variant, Err otherwise
+/// (loop-free, full usize domain, payload-free and usize-carrying variants; values are leaked so that no drop glue runs)
 #[kani::proof]
 #[kani::unwind(2)]
 fn vcell_accessors() {
@@ -19,28 +35,29 @@ fn vcell_accessors() {
         6 => VCell::Closure(a, b),
         _ => VCell::Undefined,
     };
-    match &v {
-        VCell::Ptr(p) => assert!(v.as_ptr() == Ok(*p)),
-        _ => assert!(v.as_ptr().is_err()),
+    match k % 8 {
+        0 => assert!(ok_is(v.as_ptr(), a)),
+        _ => assert!(is_err(v.as_ptr())),
     }
-    match &v {
-        VCell::ArgumentCount(p) => assert!(v.as_argc() == Ok(*p)),
-        _ => assert!(v.as_argc().is_err()),
+    match k % 8 {
+        1 => assert!(ok_is(v.as_argc(), a)),
+        _ => assert!(is_err(v.as_argc())),
     }
-    match &v {
-        VCell::Pair(x, y) => {
-            assert!(v.as_car() == Ok(VCell::Ptr(*x)));
-            assert!(v.as_cdr() == Ok(VCell::Ptr(*y)));
+    match k % 8 {
+        2 => {
+            assert!(ok_ptr(v.as_car(), a));
+            assert!(ok_ptr(v.as_cdr(), b));
             assert!(v.is_pair());
         }
         _ => {
-            assert!(v.as_car().is_err());
-            assert!(v.as_cdr().is_err());
+            assert!(is_err(v.as_car()));
+            assert!(is_err(v.as_cdr()));
             assert!(!v.is_pair());
         }
     }
-    match &v {
-        VCell::BasePointer(p) => assert!(v.as_bp() == Ok(*p)),
-        _ => assert!(v.as_bp().is_err()),
+    match k % 8 {
+        3 => assert!(ok_is(v.as_bp(), a)),
+        _ => assert!(is_err(v.as_bp())),
     }
+    std::mem::forget(v);
 }
